@@ -217,3 +217,7 @@ M("c14-nacv", "C14", "decoder/adsb.py", "    try:\n        HFOMr = uncertainty.N
 M("c15-is60-regress", "C15", "decoder/bds/bds60.py", "        if alt is not None and alt != -999999 and alt != -1:", "        if alt is not None:")
 M("c15-tell-regress", "C15", "decoder/__init__.py", '        _print("Altitude", None if alt in (-999999, -1) else alt, "feet")', '        _print("Altitude", alt, "feet")')
 M("c16-rtlsource", "C16", "streamer/source.py", "            elif df == 20 or df == 21:", "            elif df == 20:", nth=1)
+
+# ---- hidden state between calls (found through the generic re-evaluation of earlier cases, or the prelude / repeated calls)
+M("state-gs50-cache", "C11", "decoder/bds/bds50.py", "def gs50(msg: str) -> Optional[float]:", "_GS = {}\n\n\ndef gs50(msg: str) -> Optional[float]:\n    if msg[:10] in _GS:\n        return _GS[msg[:10]]\n    _GS[msg[:10]] = _gs50(msg)\n    return _GS[msg[:10]]\n\n\ndef _gs50(msg: str) -> Optional[float]:")
+M("state-callsign-last", "C10", "decoder/bds/bds08.py", "    cs = cs.replace(\"#\", \"\")\n    return cs", "    cs = cs.replace(\"#\", \"\")\n    global _LAST\n    try:\n        prev = _LAST\n    except NameError:\n        prev = None\n    _LAST = (msg[:8], cs)\n    if prev and prev[0] == msg[:8]:\n        return prev[1]\n    return cs")
